@@ -932,3 +932,66 @@ pub fn semantic_key_histories(ctx: &mut Ctx, monitor: &str, judged_ops: &[&str])
     }
     ctx.extra.insert("semantic_key_calls".into(), json!(calls));
 }
+
+/// Every value property under concurrency: a sample of the calls this run has already judged (and
+/// found in agreement with the model) is evaluated again by 8 threads at once, each in its own
+/// order, and then 16 of them are hammered by all threads. Every result must be the one the same
+/// call gave when it ran alone. Shared scratch state behind an operator (a one-slot cache of a
+/// split string, a table of parsed paths) shows as a result that belongs to another thread's call.
+pub fn concurrent_replay(ctx: &mut Ctx, monitor: &str) {
+    let pool: Arc<Vec<(Value, Value, String)>> = Arc::new(std::mem::take(&mut ctx.replay_pool));
+    if pool.len() < 16 {
+        return;
+    }
+    let threads = 8usize;
+    let passes = ctx.budget(2, 12) as usize;
+    let hammer_calls = ctx.budget(1_500, 20_000) as usize;
+    let barrier = Arc::new(Barrier::new(threads));
+    let mism: Arc<Mutex<Vec<(usize, String, usize, &'static str)>>> = Arc::new(Mutex::new(Vec::new()));
+    let mut hs = Vec::new();
+    for t in 0..threads {
+        let (pool, barrier, mism) = (pool.clone(), barrier.clone(), mism.clone());
+        let mut rng = Rng::from_parts(ctx.seed ^ 0x7265706c, "replay-thread", (ctx.shard << 8) | t as u64);
+        hs.push(std::thread::spawn(move || {
+            observe::install_panic_hook();
+            let mut order: Vec<usize> = (0..pool.len()).collect();
+            barrier.wait();
+            for _ in 0..passes {
+                for k in (1..order.len()).rev() {
+                    order.swap(k, rng.below(k + 1));
+                }
+                for &i in order.iter() {
+                    let (r, d, want) = &pool[i];
+                    let got = crate::ctx::outcome_key_plain(&observe::call(r, d));
+                    if &got != want {
+                        mism.lock().unwrap().push((i, got, t, "mixed"));
+                    }
+                }
+            }
+            barrier.wait();
+            // hammer: the same 16 calls (chosen by position, the same for every thread) from all threads
+            let stride = pool.len() / 16;
+            for _ in 0..hammer_calls {
+                let i = rng.below(16) * stride;
+                let (r, d, want) = &pool[i];
+                let got = crate::ctx::outcome_key_plain(&observe::call(r, d));
+                if &got != want {
+                    mism.lock().unwrap().push((i, got, t, "hammer"));
+                }
+            }
+        }));
+    }
+    for h in hs {
+        let _ = h.join();
+    }
+    let made = (threads * (passes * pool.len() + hammer_calls)) as u64;
+    ctx.evaluations += made;
+    ctx.mon(monitor).observed += made;
+    ctx.mon(monitor).judged += made;
+    for (i, got, t, phase) in mism.lock().unwrap().iter() {
+        let (r, d, want) = &pool[*i];
+        ctx.violation_x(monitor, &format!("concurrent-result-differs:{}", crate::ctx::top_op(r)), r, d, json!({ "alone": want }), json!({ "concurrent": got }), "a call that agreed with the reference semantics when it ran alone gave a different result while other threads were evaluating", json!({"thread": t, "threads": threads, "phase": phase}));
+    }
+    ctx.cell("concurrent-replay");
+    ctx.extra.insert("concurrent_replay".into(), json!({"calls_sampled": pool.len(), "threads": threads, "passes": passes, "hammer_calls_per_thread": hammer_calls}));
+}
